@@ -91,7 +91,7 @@ def run_cases_for(chk):
     # delayed models (past(x, tau) with tau a multiple of the step): the Euler / Heun iterates of the DDE with the piecewise-linear
     # history of the computed iterates — exact comparison
     for t_, f_, m_ in gen.dde_models():
-        if t_.startswith(("H1", "H2", "H3", "H4", "H5")):
+        if t_.split("-")[0] in ("H1", "H2", "H3", "H4", "H5"):
             for solver in ("euler", "heun"):
                 cases.append(dict(tag=f"{t_}/{solver}", features=dict(f_, solver=solver, dde=True), model=m_, solver=solver, T=2.0, dt=0.05,
                                   dts=0.1, vec=False, cutoff=0.0))
@@ -105,12 +105,14 @@ def run_cases_for(chk):
     for c in _c02.families(chk.tier, chk.seed):
         if c["kind"] == "loops" or (c["kind"] == "inputs_backend" and c["backend"] in ("torch", "jax") and c["solver"] in ("euler", "heun")):
             cases.append(c)
-    driver.run_family(
+    results = driver.run_family(
         chk, "run-vs-spec-iterates", cases, run_case, site="C03/run",
         rule="models F1/F2/F6/F7/F8 x euler/heun x (T, dt, dts) grid with dts/dt in {1,2,3,5} x cut-offs (off-grid and on-grid) x "
              "vectorize off/on: row count, index, first row and every value against spec_fixed_step(spec_rhs) at rtol 1e-7; scipy "
              "RK45 (thorough: DOP853, LSODA) against a tight DOP853 reference on spec_rhs; distinct = distinct (model, solver, T, dt, dts, cutoff, vectorize)",
         sample_of=lambda c: {k: v for k, v in c.items() if k not in ("model", "features")})
+    driver.run_sequences(chk, "run-vs-spec-iterates-in-sequence", cases, results, run_case, site="C03/run",
+                         limit=15 if chk.tier == "quick" else 100, seed=chk.seed)
 
 
 def main():
